@@ -21,10 +21,11 @@ import (
 )
 
 func main() {
-	mode := flag.String("mode", "rewrite", "rewrite | genos | gostart | closeyield | httpserve")
+	mode := flag.String("mode", "rewrite", "rewrite | genos | gostart | closeyield | httpserve | callrename")
 	shims := flag.String("shims", "sync,os", "comma separated std packages to redirect")
 	mod := flag.String("mod", "github.com/a-h/templ/zzverif/shim", "import path prefix of the shims")
 	out := flag.String("out", "", "genos: output file")
+	renames := flag.String("renames", "", "callrename: comma separated pkg.Func=NewFunc (calls pkg.Func(...) become pkg.NewFunc(...))")
 	overrides := flag.String("overrides", "", "genos: comma separated names NOT to re-export (hand-written in the shim)")
 	flag.Parse()
 	switch *mode {
@@ -67,6 +68,23 @@ func main() {
 			n += c
 		}
 		fmt.Printf("instrumented %d close statements\n", n)
+	case "callrename":
+		m := map[string]string{}
+		for _, r := range strings.Split(*renames, ",") {
+			if a, b, ok := strings.Cut(r, "="); ok {
+				m[a] = b
+			}
+		}
+		n := 0
+		for _, dir := range flag.Args() {
+			c, err := callRenameDir(dir, m)
+			if err != nil {
+				fmt.Fprintln(os.Stderr, err)
+				os.Exit(1)
+			}
+			n += c
+		}
+		fmt.Printf("renamed %d calls\n", n)
 	case "httpserve":
 		n := 0
 		for _, dir := range flag.Args() {
@@ -345,6 +363,60 @@ func httpServeDir(dir, hookPath string) (int, error) {
 			continue
 		}
 		addImport(f, "verifsimhook", hookPath)
+		var buf bytes.Buffer
+		if err := format.Node(&buf, fset, f); err != nil {
+			return total, err
+		}
+		if err := os.WriteFile(p, buf.Bytes(), 0o644); err != nil {
+			return total, err
+		}
+		total += n
+	}
+	return total, nil
+}
+
+// callRenameDir turns calls pkg.Func(...) into pkg.NewFunc(...) (NewFunc lives in an export
+// file of the same package and stands in for a function that talks to the operating system).
+func callRenameDir(dir string, m map[string]string) (int, error) {
+	ents, err := os.ReadDir(dir)
+	if err != nil {
+		return 0, err
+	}
+	total := 0
+	for _, e := range ents {
+		name := e.Name()
+		if e.IsDir() || !strings.HasSuffix(name, ".go") || strings.HasSuffix(name, "_test.go") || strings.HasPrefix(name, "zz_verif") {
+			continue
+		}
+		p := filepath.Join(dir, name)
+		fset := token.NewFileSet()
+		f, err := parser.ParseFile(fset, p, nil, parser.ParseComments)
+		if err != nil {
+			return total, err
+		}
+		n := 0
+		ast.Inspect(f, func(nd ast.Node) bool {
+			call, ok := nd.(*ast.CallExpr)
+			if !ok {
+				return true
+			}
+			sel, ok := call.Fun.(*ast.SelectorExpr)
+			if !ok {
+				return true
+			}
+			id, ok := sel.X.(*ast.Ident)
+			if !ok {
+				return true
+			}
+			if to, ok := m[id.Name+"."+sel.Sel.Name]; ok {
+				sel.Sel = ast.NewIdent(to)
+				n++
+			}
+			return true
+		})
+		if n == 0 {
+			continue
+		}
 		var buf bytes.Buffer
 		if err := format.Node(&buf, fset, f); err != nil {
 			return total, err
